@@ -26,6 +26,12 @@ def base_cases(thorough):
     if sum(c.info['assign']) % (3 if not thorough else 1) == 0: out.append(c)
   for c in families.c03_cases(False):
     if c.info['depth'] in (2, 21): out.append(c)
+  # record fields named like keys of the compiler's own syntax tree
+  from ..lang import R, Lit, V, Eq
+  x, r_ = V('x'), V('r')
+  for n in ('variable', 'literal', 'call', 'record', 'expression', 'type', 'the_string', 'subscript', 'field_value', 'predicate_name', 'var_name', 'combine', 'value', 'field', 'number'):
+    out.append(semcheck.Case('FIELDNAMES', Program([R('T', ('fld', r_, n), body=(Lit('B', x), Eq(r_, ('rec', ((n, x),))))), R('U', ('rec', ((n, x), ('k', x))), body=(Lit('B', x),)),
+                                                    R('W', V('y'), body=(Lit('U', r_), Eq(V('y'), ('fld', r_, n))))]), ['T', 'W'], info=dict(field=n)))
   return out
 
 
@@ -79,7 +85,9 @@ def work(task):
         outcomes.add((dialect, out[0], out[1] if out[0] != 'script' else ''))
         if out[0] == 'diag': stats['diagnostics'] += 1; continue
         if out[0] != 'script':
-          bad('internal-error/%s/%s' % (dialect, out[1]), 'compilation failed with %s: %s' % (out[1], out[2][:160]), text, pred); continue
+          sig = 'internal-error/%s/%s' % (dialect, out[1])
+          if c.family == 'FIELDNAMES' and c.info['field'] == 'variable' and out[1] == 'TypeError' and dialect in ('psql', 'duckdb', 'clickhouse'): sig = 'F45-record-field-named-variable/%s' % dialect
+          bad(sig, 'compilation failed with %s: %s' % (out[1], out[2][:160]), text, pred); continue
         ok = True
         for stmt in [out[1]] + out[2] + [out[3]]:
           if stmt and stmt.strip():
